@@ -66,11 +66,16 @@ func vValExpr(v *variable.Value) *tree.Expression { return &tree.Expression{Valu
 
 // condition shapes: 0 reads the symbolic boolean $b<idx>; with allowBad also 1 a number (ill-typed), 2 unknown variable
 func vCondExpr(tag string, idx int, allowBad bool) *tree.Expression {
-	n := 1
+	shapes := []int{0}
 	if allowBad {
-		n = 6
+		shapes = append(shapes, 1, 2, 3, 4, 5)
 	}
-	switch vChoose(tag+".cond", n) {
+	if vParam("VISITCOND", 0) != 0 {
+		shapes = append(shapes, 6) // a condition that reads the visit counts: visited("n1")
+	}
+	switch shapes[vChoose(tag+".cond", len(shapes))] {
+	case 6:
+		return &tree.Expression{FunctionCall: &tree.FunctionCall{FunctionID: "visited", Arguments: []*tree.Expression{vValExpr(variable.NewString("n1"))}}}
 	case 1:
 		return vValExpr(variable.NewNumber(1))
 	case 2:
@@ -273,6 +278,52 @@ func (w *vWorld) vStatement(tag string, budget int, allowBad bool) *tree.Stateme
 	return &tree.Statement{} // no field set: "unsupported type of statement"
 }
 
+// registerHost registers the host's functions and commands on a runner of this world (the world's own runner,
+// or another runner of the same script): they log into the world.
+func (w *vWorld) registerHost(dr *DialogueRunner) {
+	// functions: probe (logged, may fail), visited/visited_count exactly as NewDialogueRunner registers them
+	// (visited / visited_count are the ones the constructor registered)
+	dr.AddFunction("probe", func(args []*variable.Value) (*variable.Value, error) {
+		idx := len(w.probes)
+		w.probes = append(w.probes, vHandlerCall{"probe", args})
+		if vBool("probe." + vItoa(idx) + ".fails") {
+			return nil, errWaitingForCommandCompletion("probe failed")
+		}
+		return variable.NewNumber(1), nil
+	})
+	dr.ConvertAndAddFunction("noreturn", func() {})
+	// commands
+	dr.AddCommand("cmd", func(args []*variable.Value) <-chan error {
+		w.handlers = append(w.handlers, vHandlerCall{"cmd", args})
+		ch := make(chan error, 1)
+		ch <- nil
+		return ch
+	})
+	dr.AddCommand("cmdv", func(args []*variable.Value) <-chan error {
+		var cp []*variable.Value
+		for _, a := range args {
+			c := vCopyValue(a)
+			cp = append(cp, &c)
+		}
+		w.handlers = append(w.handlers, vHandlerCall{"cmdv", cp})
+		ch := make(chan error, 1)
+		ch <- nil
+		return ch
+	})
+	dr.AddCommand("fail", func(args []*variable.Value) <-chan error {
+		w.handlers = append(w.handlers, vHandlerCall{"fail", args})
+		ch := make(chan error, 1)
+		ch <- errWaitingForCommandCompletion("handler failed")
+		return ch
+	})
+	dr.AddCommand("pend", func(args []*variable.Value) <-chan error {
+		w.handlers = append(w.handlers, vHandlerCall{"pend", args})
+		ch := make(chan error, 1)
+		w.pending = ch
+		return ch
+	})
+}
+
 // vNewWorld builds an arbitrary runner state. budget = nesting budget of the head statement;
 // allowBad includes script-level faults (ill-typed conditions, unknown names, malformed statements).
 func vNewWorld(budget int, allowBad bool) *vWorld {
@@ -325,47 +376,7 @@ func vNewWorld(budget int, allowBad bool) *vWorld {
 			dr.visitedNodes[w.titles[i]] = c
 		}
 	}
-	// functions: probe (logged, may fail), visited/visited_count exactly as NewDialogueRunner registers them
-	// (visited / visited_count are the ones the constructor registered)
-	dr.AddFunction("probe", func(args []*variable.Value) (*variable.Value, error) {
-		idx := len(w.probes)
-		w.probes = append(w.probes, vHandlerCall{"probe", args})
-		if vBool("probe." + vItoa(idx) + ".fails") {
-			return nil, errWaitingForCommandCompletion("probe failed")
-		}
-		return variable.NewNumber(1), nil
-	})
-	dr.ConvertAndAddFunction("noreturn", func() {})
-	// commands
-	dr.AddCommand("cmd", func(args []*variable.Value) <-chan error {
-		w.handlers = append(w.handlers, vHandlerCall{"cmd", args})
-		ch := make(chan error, 1)
-		ch <- nil
-		return ch
-	})
-	dr.AddCommand("cmdv", func(args []*variable.Value) <-chan error {
-		var cp []*variable.Value
-		for _, a := range args {
-			c := vCopyValue(a)
-			cp = append(cp, &c)
-		}
-		w.handlers = append(w.handlers, vHandlerCall{"cmdv", cp})
-		ch := make(chan error, 1)
-		ch <- nil
-		return ch
-	})
-	dr.AddCommand("fail", func(args []*variable.Value) <-chan error {
-		w.handlers = append(w.handlers, vHandlerCall{"fail", args})
-		ch := make(chan error, 1)
-		ch <- errWaitingForCommandCompletion("handler failed")
-		return ch
-	})
-	dr.AddCommand("pend", func(args []*variable.Value) <-chan error {
-		w.handlers = append(w.handlers, vHandlerCall{"pend", args})
-		ch := make(chan error, 1)
-		w.pending = ch
-		return ch
-	})
+	w.registerHost(dr)
 
 	// ---- choice ----
 	w.choice = vInt("choice")
@@ -540,6 +551,7 @@ type vSpecEnv struct {
 	nums    map[string]float64
 	probeOK func(i int) bool
 	visits  map[string]int // visit counts at the start of the step
+	left    []string       // tracked nodes left by the jumps of this step so far
 }
 
 func vEnvOf(st *variable.InMemoryStorer) *vSpecEnv {
@@ -574,6 +586,15 @@ func (e *vSpecEnv) cond(x *tree.Expression) (bool, bool) {
 	case x.NotExpression != nil:
 		b, ok := e.cond(x.NotExpression)
 		return !b, ok
+	case x.FunctionCall != nil && x.FunctionCall.FunctionID == "visited" && len(x.FunctionCall.Arguments) == 1:
+		name := *x.FunctionCall.Arguments[0].Value.String
+		c := e.visits[name]
+		for _, l := range e.left {
+			if l == name {
+				c++
+			}
+		}
+		return c > 0, true
 	}
 	return false, false
 }
@@ -663,6 +684,9 @@ func (w *vWorld) vSpecNext(env *vSpecEnv, K []*tree.Statement, waiting *tree.Sho
 				return out
 			}
 			out.jumps = append(out.jumps, out.node)
+			if w.tracked(out.node) {
+				env.left = append(env.left, out.node)
+			}
 			out.entered = append(out.entered, target)
 			K = n.Statements
 			out.node = target
